@@ -390,7 +390,19 @@ func c12Narrowing(c *Ctx, val *ssa.Function) {
 				okG = true
 			}
 		}
-		c.check(okG, "narrowing-guard", "flag#convert", ci.Pos(), "Convert to the field's type only after willOverflow(value, target) returned false", "the conversion to the (possibly narrower) field type is not dominated by the overflow test of the same value")
+		if !okG {
+			// a pointer-to-pointer conversion (value held by pointer, field of a named type) cannot narrow
+			for _, ec := range condsDominating(ci.Block()) {
+				if b, ok := ec.Cond.(*ssa.BinOp); ok && ec.Val && b.Op == token.EQL {
+					if k, ok := constInt(b.Y); ok && k == kPtr {
+						if kc, ok := b.X.(*ssa.Call); ok && calleeFullName(kc) == "(reflect.Value).Kind" && kc.Call.Args[0] == ci.Call.Args[0] {
+							okG = true
+						}
+					}
+				}
+			}
+		}
+		c.check(okG, "narrowing-guard", "flag#convert", ci.Pos(), "Convert to the field's type only after willOverflow(value, target) returned false (or a pointer-to-pointer conversion under Kind()==Ptr, which cannot narrow)", "the conversion to the (possibly narrower) field type is not dominated by the overflow test of the same value")
 	}
 	// coverage of willOverflow
 	pb := &predBuilder{}
